@@ -3,6 +3,7 @@ Plugin for importing CSV files
 """
 import codecs
 import csv
+import io
 import logging
 
 import chardet
@@ -109,7 +110,9 @@ def parse_file(file_path, parse_options=None):
 def _parse_with_encoding(file_path, parse_options, encoding):
   codec_errors = CodecErrorsReplace()
   codecs.register_error('custom', codec_errors)
-  with codecs.open(file_path, mode="r", encoding=encoding, errors="custom") as f:
+  # newline="" leaves line splitting to the csv module: codecs.open() would also split lines at
+  # form feeds, U+2028 and other characters that are ordinary data inside a CSV field.
+  with io.open(file_path, mode="r", encoding=encoding, errors="custom", newline="") as f:
     parsing_options, export_list = _parse_open_file(f, parse_options=parse_options)
     parsing_options["encoding"] = encoding
     if codec_errors.error_count:
